@@ -199,8 +199,10 @@ def oracle(line, out):
     if len(reqs) != len(outs):
         return None
     closed = set()
+    tainted = {}      # connection ordinal -> why it must not carry another request
     for rq, o in zip(reqs, outs):
         method, retries = rq.split(":")[0], int(rq.split(":")[1])
+        scripts = rq.split(":", 2)[2].split("|")
         toks = o.split(" ")
         outcome = toks[-1]
         attempts, cur = [], None
@@ -224,8 +226,22 @@ def oracle(line, out):
             for t in a:
                 if t[0] == "S" and t[1:-1] in closed:
                     return ("send-on-closed-connection", "request sent on connection %s after it was closed" % t[1:-1])
+                if t[0] == "S" and t[-1] == "+" and t[1:-1] in tainted:
+                    return ("tainted-connection-reused", "a request was sent on connection %s although %s"
+                            % (t[1:-1], tainted[t[1:-1]]))
                 if t[0] == "X":
                     closed.add(t[1:])
+            # the peer's script for this attempt: a response followed by surplus bytes or announcing
+            # "Connection: close" (verdict e) taints the connection it was received on
+            if i < len(scripts) and any(t[0] == "S" and t[-1] == "+" for t in a):
+                rx = scripts[i].split(":", 1)[1].split(",") if ":" in scripts[i] else []
+                conn = [t[1:-1] for t in a if t[0] == "S" and t[-1] == "+"][-1]
+                for tok in rx:
+                    if tok.endswith("/e"):
+                        tainted[conn] = "the response received on it in an earlier exchange was followed by surplus bytes or said Connection: close"
+                        break
+                    if tok.endswith("/r") or tok.endswith("/f"):
+                        break
             last = i == len(attempts) - 1
             ok = last and outcome.startswith("=OK")
             used = [t[1:-1] for t in a if t[0] in "CS" and t[-1] == "+"]
@@ -270,6 +286,8 @@ def run(ctx):
                 "Q POST:2:01111:d%s/r,c/0;POST:2:01111:c/0|01111:d%s/r" % (ok, ok),   # stale cached connection: not retried
             ]
             lines = corpus + [gen_case(rng) for _ in range(n)]
+            # every third case with paced delivery: the client sees exactly the scripted segmentation
+            lines = [("QP" + l[1:]) if (i % 3 == 2 and l.startswith("Q ")) else l for i, l in enumerate(lines)]
             li, lm, _ = vlib.run_pair(ctx, impl_exe, model_exe, lines, "c17h", timeout=1500)
             nontrivial = set()
             disagree = 0
